@@ -116,8 +116,13 @@ func TestC07Random(t *testing.T) {
 			return model.Op{K: "regnode", N: id, NT: typeOf[id], Pol: rapid.IntRange(0, 3).Draw(t, "pol"), Dress: rapid.SampledFrom([]int{0, 0, 1, 2, 3}).Draw(t, "dress"), Reuse: rapid.IntRange(0, 3).Draw(t, "reuse") == 0,
 				Shape: rapid.SampledFrom([]int{0, 0, 1, 2, 3}).Draw(t, "shape")}
 		case 1:
+			f := rapid.SampledFrom([]string{"n", "m"}).Draw(t, "f")
+			pids := []string{f, "s"}
+			if rapid.IntRange(0, 3).Draw(t, "listedTwice") == 0 {
+				pids = []string{f, f, "s"} // a node id may be listed more than once
+			}
 			return model.Op{K: "regpipe", ET: rapid.SampledFrom(ets).Draw(t, "et"), P: rapid.SampledFrom([]string{"p", "q"}).Draw(t, "p"),
-				IDs: []string{rapid.SampledFrom([]string{"n", "m"}).Draw(t, "f"), "s"}, Pol: rapid.IntRange(0, 3).Draw(t, "ppol"), Dress: rapid.SampledFrom([]int{0, 0, 1, 2, 3}).Draw(t, "pdress")}
+				IDs: pids, Pol: rapid.IntRange(0, 3).Draw(t, "ppol"), Dress: rapid.SampledFrom([]int{0, 0, 1, 2, 3}).Draw(t, "pdress")}
 		case 2:
 			return model.Op{K: "rmpipe", ET: rapid.SampledFrom(ets).Draw(t, "et"), P: rapid.SampledFrom([]string{"p", "q"}).Draw(t, "p")}
 		case 3:
@@ -128,10 +133,14 @@ func TestC07Random(t *testing.T) {
 	})
 	rapid.Check(t, func(t *rapid.T) {
 		ops := rapid.SliceOfN(opGen, 1, maxOps).Draw(t, "ops")
-		msg, c := run(nil, ops, ets, ids)
-		if msg != "" {
-			t.Fatalf("VIOLATION C07: %s\nhistory: %s", msg, model.Describe(ops))
+		var pre []model.Op
+		if d := rapid.SampledFrom([]int{0, 0, 1, 2, 3}).Draw(t, "brokerOptions"); d != 0 {
+			pre = []model.Op{{K: "newbroker", V: d}}
 		}
-		sec.Case(c.DenyHits > 0, model.Describe(ops), classes(c)...)
+		msg, c := run(pre, ops, ets, ids)
+		if msg != "" {
+			t.Fatalf("VIOLATION C07: %s\nhistory: %s", msg, model.Describe(append(pre, ops...)))
+		}
+		sec.Case(c.DenyHits > 0, model.Describe(append(pre, ops...)), classes(c)...)
 	})
 }
